@@ -17,8 +17,14 @@ import (
 // which names are regular files or symbolic links to other names ("../tdir/tname"); the control file (kind dsc | changes)
 // lists the n names and lives in S; Copy into D.  Reports the error flag and every name of every directory with what it IS
 // afterwards (Lstat: a file with its bytes, or a link with its target) - the counterpart of the model U20L.
+// movelinks: the same tree, Move into D.
 func init() {
-	ops["copylinks"] = func(a []string) string {
+	ops["copylinks"] = func(a []string) string { return uploadLinks(a, false) }
+	ops["movelinks"] = func(a []string) string { return uploadLinks(a, true) }
+}
+
+func uploadLinks(a []string, move bool) string {
+	{
 		kind := arg(a, 0)
 		n, _ := strconv.Atoi(arg(a, 1))
 		names := []string{}
@@ -68,12 +74,18 @@ func init() {
 				return "parse-error"
 			}
 			run = func() error { return d.Copy(filepath.Join(root, "D")) }
+			if move {
+				run = func() error { return d.Move(filepath.Join(root, "D")) }
+			}
 		} else {
 			c, err := control.ParseChangesFile(filepath.Join(root, "S", ctlname))
 			if err != nil {
 				return "parse-error"
 			}
 			run = func() error { return c.Copy(filepath.Join(root, "D")) }
+			if move {
+				run = func() error { return c.Move(filepath.Join(root, "D")) }
+			}
 		}
 		res := "ok"
 		if e := run(); e != nil {
